@@ -58,3 +58,39 @@ Properties/C02.vos Properties/C02.vok Properties/C02.required_vos: Properties/C0
 Properties/C01.vo Properties/C01.glob Properties/C01.v.beautified Properties/C01.required_vo: Properties/C01.v Model/Base.vo Model/Schema.vo Model/Wire.vo Model/Typed.vo Model/Procs.vo Model/Inst.vo Spec/Tables.vo Spec/ProcTables.vo Proofs/Finite.vo Proofs/FramingP.vo Proofs/C11P.vo
 Properties/C01.vio: Properties/C01.v Model/Base.vio Model/Schema.vio Model/Wire.vio Model/Typed.vio Model/Procs.vio Model/Inst.vio Spec/Tables.vio Spec/ProcTables.vio Proofs/Finite.vio Proofs/FramingP.vio Proofs/C11P.vio
 Properties/C01.vos Properties/C01.vok Properties/C01.required_vos: Properties/C01.v Model/Base.vos Model/Schema.vos Model/Wire.vos Model/Typed.vos Model/Procs.vos Model/Inst.vos Spec/Tables.vos Spec/ProcTables.vos Proofs/Finite.vos Proofs/FramingP.vos Proofs/C11P.vos
+Properties/C05.vo Properties/C05.glob Properties/C05.v.beautified Properties/C05.required_vo: Properties/C05.v Model/Base.vo Model/Schema.vo Model/Wire.vo Model/Typed.vo Model/Procs.vo Model/Inst.vo Spec/Tables.vo Spec/ProcTables.vo Proofs/Finite.vo Proofs/FramingP.vo Proofs/C11P.vo
+Properties/C05.vio: Properties/C05.v Model/Base.vio Model/Schema.vio Model/Wire.vio Model/Typed.vio Model/Procs.vio Model/Inst.vio Spec/Tables.vio Spec/ProcTables.vio Proofs/Finite.vio Proofs/FramingP.vio Proofs/C11P.vio
+Properties/C05.vos Properties/C05.vok Properties/C05.required_vos: Properties/C05.v Model/Base.vos Model/Schema.vos Model/Wire.vos Model/Typed.vos Model/Procs.vos Model/Inst.vos Spec/Tables.vos Spec/ProcTables.vos Proofs/Finite.vos Proofs/FramingP.vos Proofs/C11P.vos
+Spec/CborItem.vo Spec/CborItem.glob Spec/CborItem.v.beautified Spec/CborItem.required_vo: Spec/CborItem.v Model/Base.vo Model/Wire.vo
+Spec/CborItem.vio: Spec/CborItem.v Model/Base.vio Model/Wire.vio
+Spec/CborItem.vos Spec/CborItem.vok Spec/CborItem.required_vos: Spec/CborItem.v Model/Base.vos Model/Wire.vos
+Proofs/WireP.vo Proofs/WireP.glob Proofs/WireP.v.beautified Proofs/WireP.required_vo: Proofs/WireP.v Model/Base.vo Model/Wire.vo
+Proofs/WireP.vio: Proofs/WireP.v Model/Base.vio Model/Wire.vio
+Proofs/WireP.vos Proofs/WireP.vok Proofs/WireP.required_vos: Proofs/WireP.v Model/Base.vos Model/Wire.vos
+Proofs/SkipP.vo Proofs/SkipP.glob Proofs/SkipP.v.beautified Proofs/SkipP.required_vo: Proofs/SkipP.v Model/Base.vo Model/Wire.vo Spec/CborItem.vo Proofs/WireP.vo
+Proofs/SkipP.vio: Proofs/SkipP.v Model/Base.vio Model/Wire.vio Spec/CborItem.vio Proofs/WireP.vio
+Proofs/SkipP.vos Proofs/SkipP.vok Proofs/SkipP.required_vos: Proofs/SkipP.v Model/Base.vos Model/Wire.vos Spec/CborItem.vos Proofs/WireP.vos
+Proofs/TypedP.vo Proofs/TypedP.glob Proofs/TypedP.v.beautified Proofs/TypedP.required_vo: Proofs/TypedP.v Model/Base.vo Model/Schema.vo Model/Wire.vo Model/Utf8.vo Model/Typed.vo Spec/CborItem.vo Proofs/WireP.vo Proofs/SkipP.vo
+Proofs/TypedP.vio: Proofs/TypedP.v Model/Base.vio Model/Schema.vio Model/Wire.vio Model/Utf8.vio Model/Typed.vio Spec/CborItem.vio Proofs/WireP.vio Proofs/SkipP.vio
+Proofs/TypedP.vos Proofs/TypedP.vok Proofs/TypedP.required_vos: Proofs/TypedP.v Model/Base.vos Model/Schema.vos Model/Wire.vos Model/Utf8.vos Model/Typed.vos Spec/CborItem.vos Proofs/WireP.vos Proofs/SkipP.vos
+Properties/C06.vo Properties/C06.glob Properties/C06.v.beautified Properties/C06.required_vo: Properties/C06.v Model/Base.vo Model/Schema.vo Model/Wire.vo Model/Utf8.vo Model/Typed.vo Model/Procs.vo Model/Inst.vo Spec/Tables.vo Spec/CborItem.vo Proofs/WireP.vo Proofs/SkipP.vo Proofs/TypedP.vo Proofs/FramingP.vo
+Properties/C06.vio: Properties/C06.v Model/Base.vio Model/Schema.vio Model/Wire.vio Model/Utf8.vio Model/Typed.vio Model/Procs.vio Model/Inst.vio Spec/Tables.vio Spec/CborItem.vio Proofs/WireP.vio Proofs/SkipP.vio Proofs/TypedP.vio Proofs/FramingP.vio
+Properties/C06.vos Properties/C06.vok Properties/C06.required_vos: Properties/C06.v Model/Base.vos Model/Schema.vos Model/Wire.vos Model/Utf8.vos Model/Typed.vos Model/Procs.vos Model/Inst.vos Spec/Tables.vos Spec/CborItem.vos Proofs/WireP.vos Proofs/SkipP.vos Proofs/TypedP.vos Proofs/FramingP.vos
+Properties/C04.vo Properties/C04.glob Properties/C04.v.beautified Properties/C04.required_vo: Properties/C04.v Model/Base.vo Model/Schema.vo Model/Wire.vo Model/Utf8.vo Model/Typed.vo Model/Procs.vo Model/Inst.vo Spec/Tables.vo Spec/ProcTables.vo Spec/CborItem.vo Proofs/WireP.vo Proofs/SkipP.vo Proofs/TypedP.vo Proofs/FramingP.vo Proofs/C11P.vo Proofs/Finite.vo
+Properties/C04.vio: Properties/C04.v Model/Base.vio Model/Schema.vio Model/Wire.vio Model/Utf8.vio Model/Typed.vio Model/Procs.vio Model/Inst.vio Spec/Tables.vio Spec/ProcTables.vio Spec/CborItem.vio Proofs/WireP.vio Proofs/SkipP.vio Proofs/TypedP.vio Proofs/FramingP.vio Proofs/C11P.vio Proofs/Finite.vio
+Properties/C04.vos Properties/C04.vok Properties/C04.required_vos: Properties/C04.v Model/Base.vos Model/Schema.vos Model/Wire.vos Model/Utf8.vos Model/Typed.vos Model/Procs.vos Model/Inst.vos Spec/Tables.vos Spec/ProcTables.vos Spec/CborItem.vos Proofs/WireP.vos Proofs/SkipP.vos Proofs/TypedP.vos Proofs/FramingP.vos Proofs/C11P.vos Proofs/Finite.vos
+Spec/Limits.vo Spec/Limits.glob Spec/Limits.v.beautified Spec/Limits.required_vo: Spec/Limits.v Model/Base.vo Model/Schema.vo Spec/Tables.vo
+Spec/Limits.vio: Spec/Limits.v Model/Base.vio Model/Schema.vio Spec/Tables.vio
+Spec/Limits.vos Spec/Limits.vok Spec/Limits.required_vos: Spec/Limits.v Model/Base.vos Model/Schema.vos Spec/Tables.vos
+Properties/C12.vo Properties/C12.glob Properties/C12.v.beautified Properties/C12.required_vo: Properties/C12.v Model/Base.vo Model/Schema.vo Model/Wire.vo Model/Utf8.vo Model/Typed.vo Model/Procs.vo Model/Inst.vo Spec/Tables.vo Spec/Limits.vo Proofs/WireP.vo Proofs/TypedP.vo Proofs/FramingP.vo
+Properties/C12.vio: Properties/C12.v Model/Base.vio Model/Schema.vio Model/Wire.vio Model/Utf8.vio Model/Typed.vio Model/Procs.vio Model/Inst.vio Spec/Tables.vio Spec/Limits.vio Proofs/WireP.vio Proofs/TypedP.vio Proofs/FramingP.vio
+Properties/C12.vos Properties/C12.vok Properties/C12.required_vos: Properties/C12.v Model/Base.vos Model/Schema.vos Model/Wire.vos Model/Utf8.vos Model/Typed.vos Model/Procs.vos Model/Inst.vos Spec/Tables.vos Spec/Limits.vos Proofs/WireP.vos Proofs/TypedP.vos Proofs/FramingP.vos
+Properties/C15.vo Properties/C15.glob Properties/C15.v.beautified Properties/C15.required_vo: Properties/C15.v Model/Base.vo Model/Schema.vo Model/Wire.vo Model/Utf8.vo Model/Typed.vo Model/Procs.vo Model/Inst.vo Spec/Tables.vo Spec/Limits.vo Proofs/WireP.vo Proofs/TypedP.vo Proofs/FramingP.vo
+Properties/C15.vio: Properties/C15.v Model/Base.vio Model/Schema.vio Model/Wire.vio Model/Utf8.vio Model/Typed.vio Model/Procs.vio Model/Inst.vio Spec/Tables.vio Spec/Limits.vio Proofs/WireP.vio Proofs/TypedP.vio Proofs/FramingP.vio
+Properties/C15.vos Properties/C15.vok Properties/C15.required_vos: Properties/C15.v Model/Base.vos Model/Schema.vos Model/Wire.vos Model/Utf8.vos Model/Typed.vos Model/Procs.vos Model/Inst.vos Spec/Tables.vos Spec/Limits.vos Proofs/WireP.vos Proofs/TypedP.vos Proofs/FramingP.vos
+Spec/Extends.vo Spec/Extends.glob Spec/Extends.v.beautified Spec/Extends.required_vo: Spec/Extends.v Model/Base.vo Model/Schema.vo
+Spec/Extends.vio: Spec/Extends.v Model/Base.vio Model/Schema.vio
+Spec/Extends.vos Spec/Extends.vok Spec/Extends.required_vos: Spec/Extends.v Model/Base.vos Model/Schema.vos
+Properties/C16.vo Properties/C16.glob Properties/C16.v.beautified Properties/C16.required_vo: Properties/C16.v Model/Base.vo Model/Schema.vo Model/Typed.vo Model/Inst.vo Spec/Tables.vo Spec/Limits.vo Spec/Extends.vo
+Properties/C16.vio: Properties/C16.v Model/Base.vio Model/Schema.vio Model/Typed.vio Model/Inst.vio Spec/Tables.vio Spec/Limits.vio Spec/Extends.vio
+Properties/C16.vos Properties/C16.vok Properties/C16.required_vos: Properties/C16.v Model/Base.vos Model/Schema.vos Model/Typed.vos Model/Inst.vos Spec/Tables.vos Spec/Limits.vos Spec/Extends.vos
